@@ -211,10 +211,13 @@ def _mk_as(rng, c, spec, nested=False):
             return False
         gs = c.ref.gene_seq(tx.gene)
         nest = {}
+        boundary = rng.random() < 0.25      # a nested record may end exactly on the last base of the donor segment
         for _ in range(rng.randint(1, 3)):
             g = rng.randint(asv.ds + 1, asv.de - 3)
+            if boundary and rng.random() < 0.5:
+                g = asv.de - rng.randint(1, 3)
             v = gvfgen.rand_small(rng, c.ref, tx, g, max_indel=3, snv_p=0.5)
-            if v is None or v.gend >= asv.de - 1:
+            if v is None or v.gend > asv.de or (v.gend >= asv.de - 1 and not boundary):
                 continue
             nest[v.id] = v
         if not nest:
@@ -671,7 +674,7 @@ def _nested_alternatives(ref, tx, donor_gene, ds, de, smalls):
         for comb in itertools.combinations(inside, k):
             if any(a.gend > b.gstart for a, b in zip(comb, comb[1:])):
                 continue
-            strict = all(a.gend < b.gstart for a, b in zip(comb, comb[1:]))
+            strict = all(a.gend < b.gstart for a, b in zip(comb, comb[1:])) and all(v.gend < de - 1 for v in comb)
             s = donor
             for v in reversed(comb):
                 s = s[:v.gstart - ds] + v.alt + s[v.gend - ds:]
